@@ -616,6 +616,17 @@ func TestPropExhaustive(t *testing.T) {
 	evid.SetExhaustive(fmt.Sprintf("all compositions x {EOF with/after last} x initial capacity {0,1,64} of %d fixed streams of <= %d bytes", len(streams), maxLen))
 }
 
+// FuzzCodec is the native coverage-guided target (thorough tier): the same stream generator driven by the fuzzer's bytes.
+func FuzzCodec(f *testing.F) {
+	f.Fuzz(rapid.MakeFuzz(func(t *rapid.T) {
+		c := genCase(t)
+		vs, _ := Check(c)
+		if len(vs) > 0 && !evid.IsKnown(prop, vs[0].Sig) {
+			t.Fatalf("property %s violated: %v\ncase: %+v", prop, vs[0], c)
+		}
+	}))
+}
+
 func TestReplay(t *testing.T) {
 	path := os.Getenv("VERIF_REPLAY")
 	if path == "" {
